@@ -242,6 +242,46 @@ def c10(res, rng, ctx):
                          history=False, skip_variants=("nested_list",))
         R.check_function(res, "C10", "voigt_averages[orientations]", run, (O, f, S1, S2), array_args=(0, 1), rtol=1e-9, atol=1e-9, dtypes=False,
                          history=False)
+    # ONE StiffnessTensors instance used for several calls, its matrices edited IN PLACE between the calls (the documented way to
+    # supply custom stiffness: "modify the attributes of a StiffnessTensors instance"): every call must average the tensors the
+    # instance holds at the time of the call (A-B-A: edit, then restore)
+    for k in range(2 if not ctx["thorough"] else 6):
+        ng = int(rng.integers(2, 5))
+        O = np.ascontiguousarray(_rot(rng, ng))
+        f = rng.dirichlet(np.ones(ng))
+        ms = [M.Mineral(phase=core.MineralPhase(ph), fabric=core.MineralFabric(0 if ph == 0 else 5), n_grains=ng,
+                        fractions_init=f.copy(), orientations_init=O.copy()) for ph in (0, 1)]
+        asm = [core.MineralPhase.olivine, core.MineralPhase.enstatite]
+        shared = M.StiffnessTensors()
+        original = (np.array(shared.olivine, float).copy(), np.array(shared.enstatite, float).copy())
+        steps = []
+        for step in ("as_built", "olivine_block_scaled_in_place", "enstatite_entry_set_in_place", "restored_in_place"):
+            if step == "olivine_block_scaled_in_place":
+                shared.olivine[3:, 3:] *= float(rng.uniform(1.1, 1.4))
+            elif step == "enstatite_entry_set_in_place":
+                shared.enstatite[0, 0] = float(shared.enstatite[0, 0]) + float(rng.uniform(5, 40))
+            elif step == "restored_in_place":
+                shared.olivine[...] = original[0]
+                shared.enstatite[...] = original[1]
+            fresh = M.StiffnessTensors()
+            fresh.olivine, fresh.enstatite = np.array(shared.olivine, float).copy(), np.array(shared.enstatite, float).copy()
+            try:
+                got = np.asarray(M.voigt_averages(ms, asm, [0.6, 0.4], shared))
+                want = np.asarray(M.voigt_averages(ms, asm, [0.6, 0.4], fresh))
+            except Exception as e:  # noqa: BLE001
+                res.violation("C10:api:voigt_averages:shared_stiffness_instance:raises", f"voigt_averages raised {type(e).__name__} at step {step} of a "
+                              "call sequence sharing one StiffnessTensors instance", {"steps": steps + [step]})
+                break
+            res.evaluations += 2
+            res.count("C10:api:shared StiffnessTensors instance edited in place between calls")
+            steps.append(step)
+            if got.shape != want.shape or not np.allclose(got, want, rtol=1e-9, atol=1e-9):
+                res.violation("C10:api:voigt_averages:shared_stiffness_instance:stale",
+                              f"voigt_averages with a StiffnessTensors instance that was used before and then edited in place (step '{step}') does not "
+                              f"average the tensors the instance holds now: max diff {float(np.abs(got - want).max()):.3e} GPa vs a fresh instance "
+                              "holding the same matrices", {"steps": steps, "n_grains": ng, "orientations": O.tolist(), "fractions": f.tolist(),
+                                                             "olivine": np.asarray(shared.olivine).tolist(), "enstatite": np.asarray(shared.enstatite).tolist()})
+                break
     # grain counts around block sizes: evaluated on the compiled path in a fresh process (the interpreted 8-fold rotation loop costs
     # ~6 ms per grain)
     import json
